@@ -7,6 +7,7 @@ mod abs;
 mod flat;
 mod lex;
 mod meta;
+mod triple;
 
 use std::collections::BTreeMap;
 use std::io::{BufRead, Write};
@@ -1098,6 +1099,28 @@ fn main() {
                     None => json!({"present": false}),
                 };
                 writeln!(out, "{}", ev).ok();
+            }
+        }
+        "triple" => {
+            // the texts of spec/Triple.tla on RenNrenCo2::from_str and get_meta_rennren
+            for line in stdin.lock().lines() {
+                let line = match line {
+                    Ok(l) => l,
+                    Err(_) => break,
+                };
+                if line.trim().is_empty() {
+                    continue;
+                }
+                match serde_json::from_str::<Value>(&line) {
+                    Ok(case) => {
+                        triple::triple_case(&case, &mut out);
+                        mark(&case, &mut out);
+                    }
+                    Err(e) => {
+                        eprintln!("harness: bad case line: {}", e);
+                        std::process::exit(2);
+                    }
+                }
             }
         }
         "meta" => {
